@@ -441,7 +441,23 @@ def shrink_tree(ck, impl, scr, t, is_vocab, kind, budget=400):
     return t
 
 
+def cache_known(ck):
+    """read known_findings.json once (retrying while another process rewrites it) instead of once per hit"""
+    import time
+    import vcommon
+    ks = []
+    for _ in range(50):
+        try:
+            ks = vcommon.load_known()
+            break
+        except ValueError:
+            time.sleep(0.2)
+    table = {k.get("class"): k for k in ks if k.get("property") == ck.pid and k.get("status") == "known"}
+    ck.match_known = lambda c: table.get(c)
+
+
 def run(ck):
+    cache_known(ck)
     proofs_ok = ck.coq_props(extra_targets=["Extract/ExtractHtmlSer.vo"])
     bindir = ck.cargo_build(["htmlser"])
     model = ck.ocaml_build("htmlser_model", "htmlser_model.ml", "htmlser_driver.ml")
